@@ -60,6 +60,7 @@ def table : List ModelEntries :=
   , Entries.clock
   , Entries.timerqueue
   , Entries.timerop
+  , Entries.epolltimer
   , Entries.whenall
   , Entries.stopwhen
   ]
